@@ -131,7 +131,11 @@ def declare(t, name):
         r, a, _ = HELPER_SIGS[t[1]]
         return '%s (*%s)(%s)' % (r, name, ', '.join(a))
     if t[0] == 'a':
-        return '%s %s[%d]' % (cname(t[2]), name, t[1])
+        dims, it = '', t
+        while it[0] == 'a':          # arrays of arrays: T name[n][m]
+            dims += '[%d]' % it[1]
+            it = it[2]
+        return '%s %s%s' % (cname(it), name, dims)
     return ('%s %s' % (cname(t), name)).rstrip()
 
 
@@ -175,12 +179,42 @@ def param_types(nstructs, allow_fp=True):
 def struct_defs(draw, k):
     """field list of struct s<k>; may nest s<j>, j < k"""
     fields = []
+    if draw(st.integers(0, 3)) == 0:
+        # "register-class" structs: at most 16 bytes, float/double/int scalars and 1-D / 2-D
+        # arrays of them -- the shapes for which the x86-64 ABI mixes SSE and INTEGER eightbytes
+        budget = 16
+        for _ in range(draw(st.integers(1, 3))):
+            it = draw(st.sampled_from([['f', 'float'], ['f', 'float'], ['f', 'double'], ['i', 'int'],
+                                       ['i', 'short'], ['i', 'signed char'], ['i', 'long']]))
+            size = FLOATS[it[1]] if it[0] == 'f' else INTS[it[1]][0] // 8
+            shape = draw(st.sampled_from(['scalar', '1d', '2d', '2d']))
+            cap = budget // size
+            if cap < 1:
+                break
+            if shape == 'scalar' or cap < 2:
+                fields.append(it)
+                budget -= size
+            elif shape == '1d':
+                n = draw(st.integers(1, min(4, cap)))
+                fields.append(['a', n, it])
+                budget -= n * size
+            else:
+                n1 = draw(st.integers(1, min(3, cap)))
+                n2 = draw(st.integers(1, min(3, max(1, cap // n1))))
+                fields.append(['a', n1, ['a', n2, it]])
+                budget -= n1 * n2 * size
+            budget -= budget % 4      # crude allowance for alignment padding
+        if fields:
+            return fields
     for _ in range(draw(st.integers(1, 6))):
         c = draw(st.integers(0, 9))
         if c <= 5:
             fields.append(draw(scalar_types()))
         elif c == 6 and k > 0:
             fields.append(['s', draw(st.integers(0, k - 1))])
+        elif c == 7 and draw(st.booleans()):
+            # two-dimensional array (small: structs of <= 16 bytes travel in registers)
+            fields.append(['a', draw(st.integers(1, 3)), ['a', draw(st.integers(1, 3)), draw(scalar_types())]])
         elif c in (7, 8):
             fields.append(['a', draw(st.integers(1, 4)), draw(scalar_types())])
         else:
@@ -315,6 +349,13 @@ def struct_helpers(k, fields):
         elif t[0] == 's':
             fo.append('acc = fold_s%d(acc, &%s);' % (t[1], m))
             fi.append('fill_s%d(&%s, cg_mix(v, %d));' % (t[1], m, j))
+        elif t[0] == 'a' and t[2][0] == 'a':
+            # two-dimensional array field
+            n1, n2, it = t[1], t[2][1], t[2][2]
+            fo.append('for (i = 0; i < %d; i++) { %s }' % (
+                n1 * n2, _fold_scalar(it, '%s[i / %d][i %% %d]' % (m, n2, n2))))
+            fi.append('for (i = 0; i < %d; i++) %s[i / %d][i %% %d] = %s;' % (
+                n1 * n2, m, n2, n2, _gen_scalar(it, 'cg_mix(v, %d + i)' % (100 * j + 100))))
         elif t[0] == 'a':
             fo.append('for (i = 0; i < %d; i++) { %s }' % (t[1], _fold_scalar(t[2], m + '[i]')))
             fi.append('for (i = 0; i < %d; i++) %s[i] = %s;' % (
@@ -632,6 +673,9 @@ def field_inits(mod, t, grade='plain'):
         return scalar_inits(t, grade)
     if t[0] == 's':
         return st.one_of(struct_inits(mod, t[1], 'list', grade), struct_inits(mod, t[1], 'dict', grade))
+    if t[0] == 'a' and t[2][0] == 'a':
+        inner = st.lists(scalar_inits(t[2][2], 'plain'), min_size=t[2][1], max_size=t[2][1]).map(lambda l: ['list', l])
+        return st.lists(inner, min_size=t[1], max_size=t[1]).map(lambda l: ['list', l])
     if t[0] == 'a':
         return st.lists(scalar_inits(t[2], 'plain'), min_size=t[1], max_size=t[1]).map(lambda l: ['list', l])
     if t[0] == 'q':
